@@ -12,6 +12,7 @@ def dispatch (line : String) : String :=
   | "DL" :: toks => Drv.DeadlineD.handle toks
   | "WN" :: toks => Drv.DeadlineD.handleWait toks
   | "SS" :: toks => Drv.SessionD.handle toks
+  | "RN" :: toks => Drv.RunD.handle toks
   | "LF" :: toks => Drv.LifeD.handle toks
   | "PT" :: toks => Drv.TransportD.handlePty toks
   | "PF" :: toks => Drv.TransportD.handleFd toks
